@@ -51,6 +51,7 @@ type channel struct {
 	rand            *rand.Rand
 	gorumsClient    ordering.GorumsClient
 	gorumsStream    ordering.Gorums_NodeStreamClient
+	streamGen       uint64 // number of streams created so far; guarded by streamMut
 	streamMut       sync.RWMutex
 	streamBroken    atomicFlag
 	connEstablished atomicFlag
@@ -101,6 +102,10 @@ func (c *channel) newNodeStream(conn *grpc.ClientConn) error {
 	c.streamCtx, c.cancelStream = context.WithCancel(c.parentCtx)
 	c.gorumsClient = ordering.NewGorumsClient(conn)
 	c.gorumsStream, err = c.gorumsClient.NodeStream(c.streamCtx)
+	if err == nil {
+		c.streamGen++
+	}
+	gen := c.streamGen
 	vEmit("FirstStream", c.node.ID(), 0, "ok", err == nil)
 	c.streamMut.Unlock()
 	if err != nil {
@@ -113,7 +118,7 @@ func (c *channel) newNodeStream(conn *grpc.ClientConn) error {
 		// and that receiver have started
 		c.connEstablished.set()
 		vEmit("ReceiverStart", c.node.ID(), 0)
-		go c.receiver()
+		go c.receiver(gen)
 	}
 	return nil
 }
@@ -318,27 +323,32 @@ func (c *channel) sender() {
 	}
 }
 
-func (c *channel) receiver() {
-	// lastStream is the stream this goroutine reads from; nil once it has
-	// seen the stream fail (and failed the requests pending on it)
-	c.streamMut.RLock()
-	lastStream := c.gorumsStream
-	c.streamMut.RUnlock()
+func (c *channel) receiver(readGen uint64) {
+	// readGen is the generation of the stream this goroutine reads (or last read)
+	// from; failed tells whether it has seen that stream fail (and has failed
+	// the requests pending on it)
+	failed := false
 	for {
 		resp := newMessage(responseType)
 		vGate("RcvRLockWait", c.node.ID(), 0)
 		c.streamMut.RLock()
-		if lastStream != nil && lastStream != c.gorumsStream {
-			// The sender re-created the stream before this goroutine noticed that
-			// the old one had failed. Requests that still wait for a reply on the
-			// old stream will never get one: respond with a stream is down error.
-			lastStream = c.gorumsStream
-			c.streamMut.RUnlock()
-			vEmit("RecvStreamReplaced", c.node.ID(), 0)
-			c.cancelPendingMsgs()
-			continue
+		if gen := c.streamGen; gen != readGen {
+			// The stream has been re-created since this goroutine last read. If
+			// that happened behind its back - the sender re-created the stream
+			// before this goroutine noticed that the old one had failed, or a
+			// stream created by the sender was replaced before this goroutine
+			// ever read from it - requests that still wait for a reply on a
+			// replaced stream will never get one: respond with a stream is
+			// down error.
+			lost := !failed || gen != readGen+1
+			readGen, failed = gen, false
+			if lost {
+				c.streamMut.RUnlock()
+				vEmit("RecvStreamReplaced", c.node.ID(), 0)
+				c.cancelPendingMsgs()
+				continue
+			}
 		}
-		lastStream = c.gorumsStream
 		vEmit("RecvWait", c.node.ID(), 0)
 		err := c.gorumsStream.RecvMsg(resp)
 		if err != nil {
@@ -346,7 +356,7 @@ func (c *channel) receiver() {
 			vEmit("RecvErr", c.node.ID(), 0)
 			c.streamMut.RUnlock()
 			c.setLastErr(err)
-			lastStream = nil
+			failed = true
 			// we only reach this point when the stream failed AFTER a message
 			// was sent and we are waiting for a reply. We thus need to respond
 			// with a stream is down error on all pending messages.
@@ -436,6 +446,7 @@ func (c *channel) reconnect(maxRetries float64) {
 			// keep the old (broken) stream object when the attempt fails: the
 			// receiver may be about to read from c.gorumsStream
 			c.gorumsStream = stream
+			c.streamGen++
 			c.streamBroken.clear()
 			c.streamMut.Unlock()
 			select {
